@@ -143,7 +143,7 @@ func CheckC18(tier string) int {
 	start := time.Now()
 	maxNodes, maxDepth, maxBranch := 5, 4, 2
 	if tier == "thorough" {
-		maxNodes, maxDepth, maxBranch = 7, 5, 3
+		maxNodes, maxDepth, maxBranch = 8, 5, 3
 	}
 	base := world.NewWorld(world.WorldOpts{Names: []string{A}, NoMesh: true})
 	init := base.Freeze()
